@@ -132,6 +132,7 @@ class Model:
         if s is None: return None
         head, args, rest = parse_type(s)
         if rest.strip().startswith('::exit_pt') or rest.strip().startswith('::entry_pt') or rest.strip().startswith('::direct'):
+            if head.endswith('::state_machine_base') and len(args) >= 3: return args[2]      # backmp11: nested in the CRTP base, the state is Derived
             return head + '<' + ', '.join(args) + '>'
         return s
     def states(self, fe):
@@ -146,7 +147,8 @@ class Model:
             tl = type_list(t)
             for x in (tl if tl is not None else [t]):
                 head, args, rest = parse_type(x)
-                if rest.strip().startswith('::') and args is not None and head in BACKENDS: add(head + '<' + ', '.join(args) + '>')
+                if rest.strip().startswith('::') and args is not None and head in BACKENDS:
+                    add(args[2] if head.endswith('::state_machine_base') and len(args) >= 3 else head + '<' + ', '.join(args) + '>')
                 else: add(x)
         for s in self.initial_states(fe) or []: add(s)
         return out
